@@ -10,7 +10,7 @@ for s in $seeds; do
 	cid=$(python3 -c "import json;print(json.load(open('/verif/seeded/$s/meta.json')).get('check_id','${s%%.*}'))")
 	if ! git -C /repo apply /verif/seeded/$s/patch.diff 2>/dev/null; then echo "$s: PATCH DOES NOT APPLY"; continue; fi
 	out=$(./check $cid quick 2>&1)
-	git -C /repo checkout -- . ; git -C /repo clean -fdq pkg cmd 2>/dev/null
+	git -C /repo checkout -- .
 	if echo "$out" | grep -q "^VIOLATION"; then
 		echo "$s: DETECTED by $cid ($(echo "$out" | grep -m1 'key=' | sed 's/^ *//' | cut -c1-110))"
 	else
